@@ -654,6 +654,69 @@ func run1(t *testing.T, c Case) (res Result) {
 			lab.Settle(12 * time.Second) // the lock on the former primary's books expires (TTL 8 s)
 			w.checkAll("holder-promoted")
 			res.Class = "holder-promoted-ok"
+		case "halt-over-hot-journal":
+			// An application on the primary died in the middle of a rollback-journal transaction: its locks are gone, its
+			// journal and the pages it had already overwritten are still there. Then a replica asks for the halt lock. The
+			// grant includes a recovery: the holder starts from the committed image, and nothing of the dead transaction
+			// can come back later over what the holder commits.
+			if w.wal {
+				res.Class = "n/a"
+				return
+			}
+			{
+				dead := pager.NewConn(P.M, "db", 91, ps)
+				func() {
+					defer func() {
+						if p := recover(); p != nil {
+							if _, ok := p.(pager.Abort); !ok {
+								panic(p)
+							}
+						}
+					}()
+					wrote := false
+					dead.Before = func(step int, desc string) {
+						if wrote {
+							panic(pager.Abort{Step: step})
+						}
+						if strings.HasPrefix(desc, "db write page") {
+							wrote = true
+						}
+					}
+					dead.RunRTx(pager.RTx{Mods: []uint32{2, 3}, SpillAfter: []int{1}, Final: "DELETE", Outcome: "commit"}, w.img)
+				}()
+				dead.Before = nil
+				dead.Close()
+				if !P.M.Exists("db-journal") {
+					res.Harness = "no hot journal"
+					return
+				}
+			}
+			if err := w.acquire(); err != nil {
+				viol("C13/acquire-failed", "acquiring the halt lock failed: %v", err)
+				return
+			}
+			if _, err := os.Stat(P.DB("db").JournalPath()); err == nil {
+				viol("C13/hot-journal-survives-grant", "the halt lock was granted while a dead application's rollback journal still lies next to the primary's database")
+			}
+			if _, fs := mon.CheckDB(P, "db", w.img); len(fs) > 0 {
+				viol("C13/primary-image-at-grant", "at the grant the primary's database is not the image of the granted position: %s", fs[0].What)
+			}
+			if ok, err, step := w.txOn(R, 3, []uint32{2, 3}); !ok {
+				viol("C13/forwarded-commit-failed", "the holder's commit failed at %q: %v", step, err)
+				return
+			}
+			if pp, rp := posOf(P), posOf(R); pp != rp {
+				viol("C13/ack-before-apply", "the holder's commit returned with R=%s while the primary is at %s", rp, pp)
+			}
+			if err := w.release(); err != nil {
+				viol("C13/release-failed", "releasing the halt lock failed: %v", err)
+			}
+			// whatever recovers next on the primary (a reader, an export, a role change) must find nothing to roll back
+			if err := P.Store.Recover(context.Background()); err != nil {
+				viol("C13/recover-after-release", "Store.Recover on the primary after the release: %v", err)
+			}
+			w.checkAll("halt-over-hot-journal")
+			res.Class = "halt-over-hot-journal-ok"
 		case "release-during-commit":
 			// The application that owns the halt lock gives it back (another file handle, or the "litefs run
 			// -with-halt-lock-on" child exiting) while a second connection on the same node is in the middle of a
@@ -1201,6 +1264,7 @@ func TestCheck(t *testing.T) {
 		}
 		cases = append(cases, Case{Scenario: "lagging-acquire", WAL: wal, Variant: 0}, Case{Scenario: "lagging-acquire", WAL: wal, Variant: 1},
 			Case{Scenario: "acquire-timeout", WAL: wal}, Case{Scenario: "expiry-snapshot", WAL: wal}, Case{Scenario: "holder-promoted", WAL: wal},
+			Case{Scenario: "halt-over-hot-journal", WAL: wal},
 			Case{Scenario: "release-during-commit", WAL: wal, Variant: 0}, Case{Scenario: "release-during-commit", WAL: wal, Variant: 1}, Case{Scenario: "release-during-commit", WAL: wal, Variant: 2})
 		for v := 0; v < 18; v++ {
 			cases = append(cases, Case{Scenario: "tx-matrix", WAL: wal, Variant: v})
